@@ -701,3 +701,47 @@ var rawDocs = []string{
 	`<calendar-query xmlns="urn:ietf:params:xml:ns:caldav"><filter><comp-filter name="A"><prop-filter name="P"><text-match collation="i;octet" negate-condition="no">t</text-match><text-match negate-condition="yes"/></prop-filter></comp-filter></filter></calendar-query>`,
 	`<calendar-query xmlns="urn:ietf:params:xml:ns:caldav"><filter><comp-filter name="A"><prop-filter name="P"><param-filter name="Q"><text-match>a</text-match><is-not-defined/></param-filter></prop-filter></comp-filter></filter></calendar-query>`,
 }
+
+// ---- encoding/xml's nesting limit (errUnmarshalDepth at 10000 levels; a
+// comp-filter inside a comp-filter, a comp inside a comp cost two each)
+
+// deepCf: n comp-filters nested in each other; rich = the innermost carries a
+// prop-filter with a param-filter with a text-match (five more levels).
+func deepCf(n int, rich bool) cfV {
+	c := cfV{name: "VEVENT", start: zeroInst, end: zeroInst}
+	if rich {
+		c.props = []pfV{{name: "ATTENDEE", start: zeroInst, end: zeroInst, params: []pafV{{name: "PARTSTAT", tm: &tmatch{"x", false}}}}}
+	}
+	for i := 1; i < n; i++ {
+		c = cfV{name: "A", start: zeroInst, end: zeroInst, comps: []cfV{c}}
+	}
+	return c
+}
+
+// deepCr: n comps nested in each other; withProp = the innermost names a property.
+func deepCr(n int, withProp bool) crV {
+	c := crV{name: "VALARM"}
+	if withProp {
+		c.props = []string{"TRIGGER"}
+	}
+	for i := 1; i < n; i++ {
+		c = crV{name: "A", comps: []crV{c}}
+	}
+	return c
+}
+
+// deepUnknown: a calendar-query whose filter's comp-filter contains n nested
+// elements the grammar does not know (skipped by the decoder, at no depth
+// cost), resp. whose DAV:prop asks for a property with n nested children.
+func deepUnknown(n int, inProp bool) []byte {
+	open := strings.Repeat("<C:x>", n)
+	cl := strings.Repeat("</C:x>", n)
+	prop := "<D:getetag/>"
+	inner := open + cl
+	if inProp {
+		prop = "<D:getetag/><C:y>" + open + cl + "</C:y>"
+		inner = ""
+	}
+	return []byte(`<?xml version="1.0" encoding="utf-8"?><C:calendar-query xmlns:C="urn:ietf:params:xml:ns:caldav" xmlns:D="DAV:"><D:prop>` + prop +
+		`</D:prop><C:filter><C:comp-filter name="VCALENDAR">` + inner + `</C:comp-filter></C:filter></C:calendar-query>`)
+}
